@@ -616,11 +616,8 @@ beyond 1e±154 resp. `Re z > 709.78`. -/
 section field
 variable {α : Type} [Add α] [Mul α] [Neg α] [Sub α] [Div α] [Zero α] [One α] [Transc α] [LT α] [DecidableLT α]
 
-/-- `hypot(a, b)` (C99 / `torch.hypot`): `sqrt(a² + b²)` computed without forming `a²` or `b²` at full scale:
-`m * sqrt((a/m)² + (b/m)²)` with `m = max |a| |b|`; `hypot(0, 0) = 0` -/
-def hypot (a b : α) : α :=
-  let m := Transc.max (Transc.abs a) (Transc.abs b)
-  if 0 < m then m * Transc.sqrt ((a / m) * (a / m) + (b / m) * (b / m)) else m
+/- `hypot`, `expC`, `sigC` (one number at a time) are defined in `QV.Model.CplxScalar` (namespace `QV.Cplx`), where the gradient
+model shares them. -/
 
 /-- `absolute_value(x) = torch.hypot(real(x), imag(x))` (cplx.py:292-301, after F17_abs) -/
 def absoluteValue (x : Tensor α) : Except PyErr (Tensor α) := do
@@ -674,20 +671,6 @@ def norm (x : Tensor α) : Except PyErr (Tensor α) := do
   let sc := if 0 < m then m else 1
   let n ← normSqr (x.map (fun v => v / sc))
   pure (n.map (fun v => Transc.sqrt v * sc))
-
-/-- numpy's `exp(x + iy)` -/
-def expC (z : C α) : C α := (Transc.exp z.1 * Transc.cos z.2, Transc.exp z.1 * Transc.sin z.2)
-
-/-- the logistic function on one complex number as coded after F17_sigmoid (cplx.py:338-342):
-`right = Re z > 0`, `ez = exp(-z)` if `right` else `exp(z)`, result `(1 if right else ez) / (1 + ez)`
-(complex quotient `C.div`) -/
-def sigC (z : C α) : C α :=
-  if 0 < z.1 then
-    let e := expC (C.neg z)
-    C.div C.one (1 + e.1, e.2)
-  else
-    let e := expC z
-    C.div e (1 + e.1, e.2)
 
 /-- `sigmoid(x, y)` (cplx.py:326-345) of two REAL tensors: numpy broadcasting of `x + 1j*y`
 (`ValueError` when they do not broadcast), then `[real(out), imag(out)]` -/
